@@ -15,9 +15,9 @@ ID = 'C15'
 HASHSEED_IS_VIOLATION = True
 
 TIERS = {
-    'quick': {'runs': 60000, 'replica_runs': 6000, 'hash_seeds': [1, 4242, 99], 'timeout_s': 420, 'shrink_s': 40},
+    'quick': {'runs': 60000, 'replica_runs': 6000, 'hash_seeds': [1, 4242, 99], 'timeout_s': 1200, 'shrink_s': 40},
     'thorough': {'runs': 600000, 'replica_runs': 40000, 'hash_seeds': [1, 2, 3, 7, 99, 4242, 31337, 2**31],
-                 'timeout_s': 3000, 'shrink_s': 120},
+                 'timeout_s': 9000, 'shrink_s': 120},
 }
 
 RULE = ('Each run is a history of <= 10 operations on a heap of <= 4 Graph objects over small alphabets (3 variables, '
